@@ -284,4 +284,4 @@ def warmup(tier):
 
 
 def parts(tier):
-    return [Part("trees", oracle, strategy=tree(), n=160 if tier == "quick" else 6400, describe=describe)]
+    return [Part("trees", oracle, strategy=tree(), n=220 if tier == "quick" else 6400, describe=describe)]
